@@ -33,7 +33,10 @@ def work(rc: RwCase) -> Dict[str, Any]:
             gen_b, mods_b = compile_case_py(rc.b, sb)
         except CompileError as e:
             # the rewrites are valid by construction; a rejection is a harness problem, not a verdict
-            res["inconclusive"].append(f"{rc.name}: rewritten schema rejected: {e}")
+            # the base is accepted and the rewrite is wire-preserving by construction (it is accepted on
+            # the unchanged tree): an equivalent schema that no longer compiles has no bytes at all
+            res["violations"].append({"what": f"{rc.name}: the rewritten (equivalent) schema is rejected: {e}", "payload": {"kind": "py-rw", "pair": rc.name, "rewrites": list(rc.rewrites),
+                                      "files_a": rc.a.proto.files(), "files_b": rc.b.proto.files(rc.style_b), "error": str(e)}, "confirmed": True, "info": {"kind": "rw-rejected"}})
             return res
         try:
             TA = PyTarget(gen_a, mods_a)
